@@ -55,6 +55,63 @@ impl Space for HugeTables {
     }
 }
 
+/// A section-name table of more than 64 KiB whose last entries are the names that are looked up:
+/// cuts around the table's start, its 64 KiB mark, the wanted names and its end.
+struct BigNames;
+impl Space for BigNames {
+    fn name(&self) -> String {
+        "objects (tables-first layout) whose .shstrtab is 66 KiB long, with .dynsym / .dynstr / .note.a named at its very end: cuts at the table start +-1, at table offsets 65535..65537, 1 / 0 bytes before each wanted name, inside it, at its terminator, at EOF-1; every query incl. by-name lookup, both parsers; 2 encodings".into()
+    }
+    fn size(&self) -> u64 {
+        2
+    }
+    fn describe(&self, idx: u64) -> Value {
+        json!({"encoding": refmodel::layout::ENCS[if idx == 0 { 2 } else { 1 }].name(), "name_table_bytes": "about 66 KiB"})
+    }
+    fn run(&self, idx: u64, out: &mut Outcome) {
+        use refmodel::hashes::{build_strtab, build_symtab};
+        use refmodel::image::*;
+        use refmodel::layout::*;
+        let enc = ENCS[if idx == 0 { 2 } else { 1 }];
+        let symsz = layout(Kind::Sym, enc.class).size as u64;
+        let (dynstr, offs) = build_strtab(&[b"".to_vec(), b"f".to_vec()]);
+        let note = refmodel::notes::build_notes(enc.order, 4, &[refmodel::notes::NoteSpec { n_type: 3, name: b"GNU\0".to_vec(), desc: vec![7; 8] }], 0);
+        let long: Vec<u8> = (0..66_000usize).map(|i| b'a' + (i % 26) as u8).collect();
+        let mut spec = Spec::new(enc, TableOrder::TablesFirst);
+        spec.secs = vec![
+            Sec::new(&long, SHT_PROGBITS, vec![1, 2, 3]),
+            Sec::new(b".dynsym", SHT_DYNSYM, build_symtab(enc, &offs)).link(3).info(1).entsize(symsz),
+            Sec::new(b".dynstr", SHT_STRTAB, dynstr),
+            Sec::new(b".note.a", SHT_NOTE, note).addralign(4),
+        ];
+        let b = build(&spec);
+        let (start, size) = b.sec_range(b.shstrndx);
+        let (start, end) = (start as usize, (start + size) as usize);
+        assert!(size > 65_536 && end == b.bytes.len(), "name table must be > 64 KiB and lie at the end of the file");
+        let table = &b.bytes[start..end];
+        let find = |n: &[u8]| table.windows(n.len()).position(|w| w == n).expect("name present") + start;
+        let mut cuts: Vec<usize> = vec![start - 1, start, start + 1, start + 65_535, start + 65_536, start + 65_537, end - 1, end - 2];
+        for n in [&b".dynsym\0"[..], b".dynstr\0", b".note.a\0"] {
+            let p = find(n);
+            cuts.extend([p - 1, p, p + 3, p + n.len() - 1, p + n.len()]);
+        }
+        cuts.sort();
+        cuts.dedup();
+        let sk = crate::skeleton::Skeleton { name: format!("big-name-table/{}", enc.name()), enc, bytes: b.bytes, sites: Vec::new(), generated: true };
+        let slice = PrefixCompare::new(true);
+        let stream = super::stream_props::StreamPrefix;
+        for c in cuts {
+            if c >= sk.bytes.len() {
+                continue;
+            }
+            use crate::lattice::PrefixOracle;
+            slice.check(&sk, &sk.bytes, &sk.bytes[..c], out);
+            stream.check(&sk, &sk.bytes, &sk.bytes[..c], out);
+        }
+        out.nontrivial(idx + 0xb16);
+    }
+}
+
 pub fn build(tier: Tier) -> CheckDef {
     let mut spaces: Vec<Box<dyn Space>> = Vec::new();
     for sk in tiny_skeletons().into_iter().chain(small_shapes()).chain(extnum_shapes()) {
@@ -112,6 +169,7 @@ pub fn build(tier: Tier) -> CheckDef {
     }
     spaces.extend(super::stream_props::c18_stream_spaces(tier));
     spaces.push(Box::new(HugeTables));
+    spaces.push(Box::new(BigNames));
     CheckDef {
         prop: "C18",
         level: "model_checking",
